@@ -44,6 +44,8 @@ def mod_source(i, succ):
     lines.append(f"def probe_{i}() probe_importer;")
     # a default that refers to private module state is evaluated in the
     # module's scope, whoever calls
+    # a member every module has under the same name
+    lines.append(f"def whoami() 'M{i}';")
     lines.append(f"def _rate_{i} = 3;")
     lines.append(f"def scaled_{i}(x, factor = _rate_{i}) x * factor;")
     return "\n".join(lines) + "\n"
@@ -51,7 +53,8 @@ def mod_source(i, succ):
 
 def public_names(i, succ):
     return {f"pub_{i}", f"f_{i}", f"counter_{i}", f"bump_{i}",
-            f"probe_{i}", f"scaled_{i}"} | {f"via_{i}_{j}" for j in succ}
+            f"probe_{i}", f"scaled_{i}", "whoami"} | \
+        {f"via_{i}_{j}" for j in succ}
 
 
 def write_graph(graph, where="home"):
@@ -88,11 +91,18 @@ def commands(graph, targets):
             cmds.append((c, t))
         if graph[t]:
             cmds.append(("via", t))
+    if len(targets) >= 2:
+        # one call site that meets two modules with a member of one name
+        cmds.append(("wl", (targets[0], targets[1])))
     return cmds
 
 
 def command_text(graph, cmd):
     c, t = cmd
+    if c == "wl":
+        a, b = t
+        return (f"require M{a} as W{a}; require M{b} as W{b}; "
+                f"[m->whoami() for m in [W{a}, W{b}, W{a}]]")
     return {
         "dp": "def probe_importer = 1",
         "r": f"require M{t}",
@@ -286,6 +296,16 @@ class Importer(e4.Explorer):
             elif c == "bu":
                 resp = ["value", str(m.bump(t))] \
                     if m.names.get(f"bump_{t}") == ("sym", t) else ERR
+            elif c == "wl":
+                a, b = t
+                for x in (a, b):
+                    m.load(x, [])
+                    n = f"W{x}"
+                    if n not in m.names:
+                        added.add(n)
+                    m.names[n] = ("mod", x)
+                    m.written.discard(n)
+                resp = ["value", f"['M{a}', 'M{b}', 'M{a}']"]
             elif c in ("rsb", "rsq"):
                 m.load(t, [])
                 n = ("ST" if c == "rsb" else "SQ") + str(t)
